@@ -137,13 +137,42 @@ def search(ctx):
                 c0 = calc_cross_sections(sc, medium_index=T.NMED, illum_wavelen=T.WL, illum_polarization=pol, theory=mk()).values
                 c1 = calc_cross_sections(scs, medium_index=T.NMED, illum_wavelen=T.WL * l, illum_polarization=pol, theory=mk()).values
                 want = np.array([c0[0] * l ** 2, c0[1] * l ** 2, c0[2] * l ** 2, c0[3]])
-                if np.abs(c1 - want).max() > max(tol, 1e-10) * np.abs(want).max():
+                # the three areas relative to the extinction area, the asymmetry parameter absolutely
+                if np.abs(c1[:3] - want[:3]).max() > max(tol, 1e-10) * abs(want[2]) or abs(c1[3] - want[3]) > max(tol, 1e-10):
                     ctx.violation("C04:cross-section-scaling:%s" % name, "cross sections did not scale with the factor squared: %r vs %r" % (c1.tolist(), want.tolist()),
                                   dict(kind="cs", **info))
         except Exception as ex:
             import traceback
             ctx.violation("C04:raises:%s:%s" % (name, type(ex).__name__), "%s raised %r" % (name, ex), dict(kind="raises", tb=traceback.format_exc()[-600:], **info))
-    ctx.sample(dict(kind="search", factors="2^k, k in [-13, 13] and 10^u, u in [-4, 4]", quantities=["hologram", "field", "index rescaling", "scattering matrix", "cross sections x factor^2"]))
+    # cross sections over the whole range of length units (metres ... nanometres), absorbing / layered / cluster
+    m = ctx.n(20, 200)
+    for i in range(m):
+        try:
+            which = i % 3
+            nabs = complex(float(rng.uniform(1.4, 1.7)), float(10.0 ** rng.uniform(-6, -0.5)))
+            r0 = float(rng.uniform(0.1, 1.0))
+            if which == 0:
+                sc, mk, name = Sphere(n=nabs, r=r0, center=(0, 0, 5)), (lambda: Mie()), "Mie"
+            elif which == 1:
+                sc, mk, name = Sphere(n=[nabs, float(rng.uniform(1.4, 1.7))], r=[0.6 * r0, r0], center=(0, 0, 5)), (lambda: Mie()), "Mie(layered)"
+            else:
+                r0 = min(r0, 0.4)
+                sc = Spheres([Sphere(n=nabs, r=r0, center=(0, 0, 5)), Sphere(n=nabs.real, r=0.8 * r0, center=(2.2 * r0, 0.3 * r0, 5))], warn=False)
+                mk, name = (lambda: Multisphere()), "Multisphere"
+            l = float(10.0 ** rng.integers(-9, 7)) if i % 2 else float(2.0 ** rng.integers(-30, 21))
+            pol = T.rand_pol(rng)
+            ctx.tried("cross-section-units", (name, l, round(nabs.imag, 8), i))
+            c0 = calc_cross_sections(sc, medium_index=T.NMED, illum_wavelen=T.WL, illum_polarization=pol, theory=mk()).values
+            c1 = calc_cross_sections(scale_scatterer(sc, l), medium_index=T.NMED, illum_wavelen=T.WL * l, illum_polarization=pol, theory=mk()).values
+            want = np.array([c0[0] * l ** 2, c0[1] * l ** 2, c0[2] * l ** 2, c0[3]])
+            tol = 1e-7 if name == "Multisphere" else 1e-9
+            if np.abs(c1[:3] - want[:3]).max() > tol * abs(want[2]) or abs(c1[3] - want[3]) > tol:
+                ctx.violation("C04:cross-section-units:%s" % name, "lengths x %g: cross sections %r are not %g^2 x %r" % (l, c1.tolist(), l, c0.tolist()),
+                              dict(kind="cs-units", theory=name, scatterer=repr(sc), scale=l, pol=list(pol)))
+        except Exception as ex:
+            import traceback
+            ctx.violation("C04:raises:cross-sections:%s" % type(ex).__name__, "cross-section scaling raised %r" % (ex,), dict(kind="raises", tb=traceback.format_exc()[-600:]))
+    ctx.sample(dict(kind="search", factors="2^k, k in [-13, 13] and 10^u, u in [-4, 4]; cross sections: 10^k, k in [-9, 6] and 2^k, k in [-30, 20]", quantities=["hologram", "field", "index rescaling", "scattering matrix", "cross sections x factor^2"]))
 
 
 def replay(ctx, data):
